@@ -30,6 +30,23 @@ func init() {
 		vpkg + "Symbolic": func(fr *frame, args []value) value { return true },
 		vpkg + "Note":     extVNote,
 		vpkg + "Concrete": extVConcrete,
+		vpkg + "Attacker": func(fr *frame, args []value) value {
+			e := fr.i.eng
+			name := argString(fr, args[0], "name")
+			honest, _ := args[1].([]value)
+			var ts []*Term
+			for _, h := range honest {
+				ts = append(ts, fr.i.termOf(h))
+			}
+			e.observe(name+".honest", ts)
+			return extVBytes(fr, []value{name, args[2]})
+		},
+		vpkg + "ChunkSize": func(fr *frame, args []value) value {
+			if rebaseOn {
+				return int(rebaseC)
+			}
+			return 65536
+		},
 		vpkg + "Param": func(fr *frame, args []value) value {
 			name := argString(fr, args[0], "param name")
 			if v, ok := fr.i.eng.cfg.Params[name]; ok {
